@@ -645,4 +645,26 @@ def exV7 : VSt := { buf := { text := "x\n  ab cd\ny".toList, cur := 6 }, ring :=
 example : (vstepX (· = ' ') 3 exV7 none .cc).buf.text = "x\n  \ny".toList ∧
     getData (vstepX (· = ' ') 3 exV7 none .cc).ring = ⟨"  ab cd".toList, .lines⟩ := by decide
 
+
+/-! ### `selection_ranges()` as printed vs. as used -/
+
+/-- the ranges `cut_selection` slices with are the printed ranges with a negative bound clamped to 0
+    (the only negative bound: LINES, Emacs mode, empty text: `(0, -1)`) -/
+theorem selectionRanges_eq_I (t : Text) (cur orig : Nat) (ty : SelType) (vi : Bool) :
+    selectionRanges t cur orig ty vi =
+      (selectionRangesI t cur orig ty vi).map fun p => (p.1.toNat, p.2.toNat) := by
+  cases ty <;> simp [selectionRangesI, selectionRanges, linesEnd, Function.comp_def]
+
+/-- the ranges of a selection in the EMPTY document, as the code yields them -/
+example : selectionRangesI [] 0 0 .lines true = [(0, 0)] ∧ selectionRangesI [] 0 0 .lines false = [(0, -1)] ∧
+    selectionRangesI [] 0 0 .chars true = [(0, 1)] ∧ selectionRangesI [] 0 0 .chars false = [(0, 0)] ∧
+    selectionRangesI [] 0 0 .block true = [(0, 0)] ∧ selectionRangesI [] 0 0 .block false = [(0, 0)] ∧
+    selectionRanges [] 0 0 .lines true = [(0, 0)] := by decide
+
+-- ... and on empty lines
+example : selectionRangesI "\n\n".toList 1 1 .lines true = [(1, 2)] ∧ selectionRangesI "\n\n".toList 2 1 .lines false = [(1, 1)] ∧
+    selectionRangesI "\n\n".toList 2 0 .block true = [(0, 0), (1, 1), (2, 2)] ∧
+    selectionRangesI "\n".toList 1 1 .lines true = [(1, 1)] ∧ selectionRangesI "\n".toList 1 1 .lines false = [(1, 0)] := by
+  decide
+
 end Ptk.C09
